@@ -1546,6 +1546,10 @@ class Interp(object):
         return tuple(obj.mro())
       v, owner = obj.lookup(name)
       if v is None and owner is None:
+        if name == "from_config":
+          # K2: keras.layers.Layer.from_config(config) is cls(**config) for a class that does not override it
+          cls_ = obj
+          return Builtin("Layer.from_config", lambda ip, config: ip.call(cls_, [], dict(config)))
         raise PyRaise("AttributeError", (name,), node)
       return self.bind_attr(v, None, obj)
     if isinstance(obj, ModuleVal):
